@@ -292,10 +292,11 @@ type dnsKernMap struct {
 	failed  int
 	tainted bool
 	inSync  int
+	lastWriter map[[4]uint32]string
 }
 
 func dnsNewKernMap(w *dnsWorld) *dnsKernMap {
-	return &dnsKernMap{w: w, handle: new(ebpf.Map), m: map[[4]uint32]bpfDomainRouting{}}
+	return &dnsKernMap{w: w, handle: new(ebpf.Map), m: map[[4]uint32]bpfDomainRouting{}, lastWriter: map[[4]uint32]string{}}
 }
 
 func (k *dnsKernMap) install(faults bool) {
@@ -329,6 +330,7 @@ func (k *dnsKernMap) install(faults bool) {
 		for i := 0; i < n; i++ {
 			k.m[ks[i]] = vs[i]
 		}
+		k.noteWriter(ks[:n], "update")
 		k.updates++
 		if w.s.LogOn {
 			w.s.Notef("domain_routing_map: update batch %s (applied %d of %d)", dnsKernKeys(ks), n, len(ks))
@@ -356,6 +358,7 @@ func (k *dnsKernMap) install(faults bool) {
 		for i := 0; i < n; i++ {
 			delete(k.m, ks[i])
 		}
+		k.noteWriter(ks[:n], "delete")
 		k.deletes++
 		if w.s.LogOn {
 			w.s.Notef("domain_routing_map: delete batch %s (applied %d of %d)", dnsKernKeys(ks), n, len(ks))
